@@ -124,7 +124,8 @@ func checkPreimage(c *Ctx, rule string, table []preimageRow) {
 				}
 				for _, a := range s.Args() {
 					for _, lit := range funcValues(a, 0) {
-						if lit.Parent() != fn || len(lit.Params) == 0 {
+						// a literal of this function, or a named function of the same package passed as the leaf hasher
+						if len(lit.Params) == 0 || (lit.Parent() != nil && lit.Parent() != fn) || (lit.Parent() == nil && pkgRelOf(lit) != pkgRelOf(fn)) {
 							continue
 						}
 						u := newFlowUnit(p, lit)
